@@ -9,6 +9,8 @@ import (
 	"math/rand"
 	"os"
 	"sync"
+	"sync/atomic"
+	"time"
 )
 
 // traceWriter writes one JSON object per line; safe for concurrent use; assigns sequence numbers under its mutex.
@@ -38,6 +40,14 @@ func (t *traceWriter) emit(m map[string]interface{}) {
 	}
 	t.w.Write(b)
 	t.w.WriteByte('\n')
+	if atomic.LoadInt32(&hangs) >= maxHangs {
+		// every abandoned call keeps a processor busy: stop here, with the lines describing the hangs on disk (exit code 3 tells
+		// the driver that the trace is a prefix)
+		t.w.Flush()
+		t.f.Close()
+		fmt.Fprintln(os.Stderr, "too many calls that do not return; giving up after this line")
+		os.Exit(3)
+	}
 }
 
 func (t *traceWriter) close() error {
@@ -115,6 +125,25 @@ func catch(f func()) (p string) {
 	}()
 	f()
 	return ""
+}
+
+// catchT is catch with a bound on the duration: a call that has not returned after d is reported as "hang: ..." and left
+// behind (its goroutine cannot be stopped; the caller must not touch what the call was writing to).  After maxHangs such
+// calls the process stops at the next emitted trace line (see traceWriter.emit).
+var hangs int32
+
+const maxHangs = 6
+
+func catchT(d time.Duration, f func()) string {
+	done := make(chan string, 1)
+	go func() { done <- catch(f) }()
+	select {
+	case p := <-done:
+		return p
+	case <-time.After(d):
+		atomic.AddInt32(&hangs, 1)
+		return fmt.Sprintf("hang: no return within %v", d)
+	}
 }
 
 func readNDJSONRaw(path string, each func([]byte) error) error {
